@@ -433,9 +433,9 @@ func (h *hist) randomTx(av []utxo, used map[string]bool, height uint32) *regnet.
 		for i := 0; i < nh; i++ {
 			if ts.PVer == 0 {
 				ts.PHashes = append(ts.PHashes, h.freshHash())
-				ts.Outs = append(ts.Outs, regnet.OutSpec{Addr: 1 + r.Intn(4), Value: 7, Pay: "-"})
+				ts.Outs = append(ts.Outs, regnet.OutSpec{Addr: 1 + r.Intn(4), Value: int64(r.Pick(0, 1, 7, 7, 1000)), Pay: "-"})
 			} else {
-				ts.Outs = append(ts.Outs, regnet.OutSpec{Addr: 1 + r.Intn(4), Value: 7, Pay: "W" + h.freshHash()})
+				ts.Outs = append(ts.Outs, regnet.OutSpec{Addr: 1 + r.Intn(4), Value: int64(r.Pick(0, 1, 7, 7, 1000)), Pay: "W" + h.freshHash()})
 			}
 		}
 		if ts.PVer != 0 && r.Chance(30) {
@@ -443,7 +443,10 @@ func (h *hist) randomTx(av []utxo, used map[string]bool, height uint32) *regnet.
 		}
 	case 7: // return of a side-chain deposit
 		ts.Kind = "rd"
-		ts.Outs = append(ts.Outs, regnet.OutSpec{Addr: 1 + r.Intn(4), Value: 9, Pay: "R" + h.freshHash()})
+		// the returned amount is deposit - fee: exactly 0 when the failed deposit equalled the return fee
+		for i := 0; i < 1+r.Intn(2); i++ {
+			ts.Outs = append(ts.Outs, regnet.OutSpec{Addr: 1 + r.Intn(4), Value: int64(r.Pick(0, 0, 1, 9, 9, 1000)), Pay: "R" + h.freshHash()})
+		}
 		if r.Bool() {
 			ts.Outs = append(ts.Outs, regnet.OutSpec{Addr: 3, Value: 1, Pay: "-"})
 		}
